@@ -609,7 +609,7 @@ func TestC40(t *testing.T) {
 		adapters = append(adapters, &adapter{
 			name: "signed-msg", anchor: "peer/signed-msg.go",
 			fixtures: []fixture{{"sha256", mk(keys[0], hash.HashType_HashType_SHA256, []byte("body one")), "authentic"}, {"blake3", mk(keys[1], hash.HashType_HashType_BLAKE3, bytes.Repeat([]byte{7}, 70)), "authentic"}, {"sha1-1B", mk(keys[2], hash.HashType_HashType_SHA1, []byte{1}), "authentic"}},
-			pbStart: func([]byte) []int { return []int{0} },
+			pbStart:  func([]byte) []int { return []int{0} },
 			decode: func(_ string, in []byte) result {
 				m, err := peer.UnmarshalSignedMsg(in)
 				switch {
@@ -660,7 +660,7 @@ func TestC40(t *testing.T) {
 		adapters = append(adapters, &adapter{
 			name: "envelope", anchor: "envelope/unlock.go", heavy: true,
 			fixtures: []fixture{{"2-of-2", must(e1.MarshalVT()), "opened"}, {"1-of-1x2shares", must(e2.MarshalVT()), "opened"}},
-			pbStart: func([]byte) []int { return []int{0} },
+			pbStart:  func([]byte) []int { return []int{0} },
 			decode: func(_ string, in []byte) result {
 				env := &envelope.Envelope{}
 				if err := env.UnmarshalVT(in); err != nil {
